@@ -20,24 +20,9 @@ import (
 	"google.golang.org/protobuf/proto"
 )
 
-const lossyWait = 15 * time.Second
-
 func (c pcase) lossyReadOptions() []resource.ReadOption {
 	ro := c.readOptions()
 	return ro[1:] // without WithBackpressure(true)
-}
-
-func waitFor(cond func() bool) bool {
-	deadline := time.Now().Add(lossyWait)
-	for {
-		if cond() {
-			return true
-		}
-		if time.Now().After(deadline) {
-			return false
-		}
-		time.Sleep(time.Millisecond)
-	}
 }
 
 func sameOrEquiv(E func(x, y proto.Message) bool, a, b proto.Message) bool {
@@ -100,9 +85,11 @@ func (c pcase) runLossyValue(ms *monitors, slow time.Duration) {
 		return len(got) > 0 && sameOrEquiv(E, got[len(got)-1], want)
 	})
 	cancel()
+	w := bounded(lossyWait)
 	select {
 	case <-closed:
-	case <-time.After(lossyWait):
+	case <-w.C:
+		w.ranOut()
 		ms.delivery.Violate("C16/Value.Pull/lossy/not-closed", "pull channel not closed after cancel", in, "closed", "open")
 		return
 	}
@@ -221,9 +208,11 @@ func (c pcase) runLossyCollection(ms *monitors, slow time.Duration) {
 		return true
 	})
 	cancel()
+	w := bounded(lossyWait)
 	select {
 	case <-closed:
-	case <-time.After(lossyWait):
+	case <-w.C:
+		w.ranOut()
 		ms.delivery.Violate("C16/Collection.Pull/lossy/not-closed", "pull channel not closed after cancel", in, "closed", "open")
 		return
 	}
@@ -273,10 +262,14 @@ func runLossy(f lib.Flags, res *lib.Result, ms *monitors) {
 			c.Ops = replayable(c.Ops)
 		}
 		slow := time.Duration(g.r.Intn(3)) * 100 * time.Microsecond
+		mark := patience.mark()
 		if c.Kind == "vpull" {
 			c.runLossyValue(ms, slow)
 		} else {
 			c.runLossyCollection(ms, slow)
+		}
+		if patience.giveUp(mark) {
+			return
 		}
 	}
 }
